@@ -142,6 +142,6 @@ def run(tier: str, seed: int) -> Result:
   res.intern_table = intern.table()
   return res
 
-COQ_TARGETS = ["theories/C03Check.vo", "theories/Anchors.vo"]
+COQ_TARGETS = ["theories/C03Check.vo", "theories/AnchorsEdit.vo"]
 TRUSTED_BASE = []
 ASSUMPTIONS = []
